@@ -442,6 +442,22 @@ func runC14(w *World, r *Report) {
 		r.OK("C14.fails-as-a-whole", fmt.Sprintf("success returns of the %d functions of the concat closure", len(closure)), closure[0].Pos(), "none reachable past a callee's error")
 	}
 
+	// ---- parts-independent
+	r.Rule("C14.parts-independent", "ConcatMessages collects each part of a chunk under a test of that part only (shared with C18.chunk-parts-independent): 'text or tool calls' makes the result depend on how the provider happened to cut the chunks", 1)
+	{
+		cm := w.Fn("schema", "ConcatMessages")
+		n, hits := partsGuardedByOtherParts(cm, w.Named("schema", "Message"))
+		for _, h := range hits {
+			r.Fail("C14.parts-independent", fmt.Sprintf("ConcatMessages: collecting Message.%s depends on Message.%s", h.field.Name(), strings.Join(h.others, ",")), h.app.Pos(), "a chunk carrying both parts loses this one: Concat of [text+call] differs from Concat of [text],[call]")
+		}
+		if len(hits) == 0 {
+			r.OK("C14.parts-independent", fmt.Sprintf("ConcatMessages: %d per-part appends", n), cm.Pos(), "each guarded by tests of its own part only")
+		}
+		if n < 3 {
+			undecidedf("C14.parts-independent: only %d per-part appends found in ConcatMessages", n)
+		}
+	}
+
 	// ---- nil-chunk
 	r.Rule("C14.nil-chunk", "ConcatMessages rejects a nil chunk before touching it", 1)
 	{
